@@ -634,6 +634,8 @@ fn hist_script(dump: String, probes: Vec<String>, ops: Vec<Op>, tx: mpsc::Sender
     ex.probes = probes.into_iter().filter(|p| !p.starts_with('\u{1}')).collect();
     // per file: warning signatures already reported / present before the step
     let mut before: HashMap<usize, HashSet<String>> = HashMap::new();
+    let sd = SpecDump::load(&dump);
+    let mut unordered_before: HashSet<Element> = HashSet::new();
     for (step, op) in ops.iter().enumerate() {
         let _ = tx.send(Some(format!("@{} {}", step, op_kind(op))));
         let res = ex.apply(op);
@@ -643,6 +645,32 @@ fn hist_script(dump: String, probes: Vec<String>, ops: Vec<Op>, tx: mpsc::Sender
         }
         let r = guard(|| {
             let mut out: Vec<String> = vec![];
+            // specification order of every child list of every live element (independent reading of the dumped tables)
+            let mut unordered_now: HashSet<Element> = HashSet::new();
+            for m in &ex.models {
+                for (_, e) in m.elements_dfs() {
+                    let Ok(ver) = e.min_version() else { continue };
+                    let typ = et_ids(&e.element_type()).1 as u64;
+                    let leaves = sd.leaves(typ, ver as u32 as u64);
+                    let kids: Vec<u16> = e.sub_elements().map(|s| s.element_name() as u16).collect();
+                    if kids.len() < 2 && kids.iter().all(|k| leaves.iter().any(|l| l.name == *k)) {
+                        continue;
+                    }
+                    let ls: Option<Vec<&Leaf>> = kids.iter().map(|k| leaves.iter().find(|l| l.name == *k)).collect();
+                    let ok = ls.as_ref().map(|l| sd.ordered(typ, l)).unwrap_or(false);
+                    if !ok {
+                        if !unordered_before.contains(&e) {
+                            out.push(format!(
+                                "HFAIL step={} op={} res={} kind=order:{} parent={} children={:?} version={}",
+                                step, op_kind(op), res.replace(' ', "_"), if ls.is_none() { "child-not-in-version" } else { "not-in-specification-order" },
+                                e.element_name(), kids, ver as u32
+                            ));
+                        }
+                        unordered_now.insert(e.clone());
+                    }
+                }
+            }
+            unordered_before = unordered_now;
             for (k, f) in ex.files.iter().enumerate() {
                 // only files that are (still) part of a model
                 if !ex.models.iter().any(|m| m.files().any(|x| x == *f)) {
